@@ -116,6 +116,7 @@ Proof.
     inversion H; subst s; clear H. unfold Inv. cbn [cur data fs dt Ndats Ts ref init init_fs init_ref].
     rewrite since_rb_snoc, apply_ops_snoc, qprod_snoc, <- Hc. cbn [app1 fst snd qfac].
     repeat split; try assumption; try reflexivity. symmetry; exact Hq1.
+  - (* a call SciPy refuses *) discriminate H.
 Qed.
 
 Lemma inv_run : forall sg fs0 refs ds s0, init_state sg fs0 refs ds = POk s0 ->
@@ -140,6 +141,7 @@ Proof.
     rewrite Hrf, Hv. eexists; reflexivity.
   - rewrite Hinit. eexists; reflexivity.
   - eexists; reflexivity.
+  - destruct Ho.
 Qed.
 
 Lemma run_total : forall sg fs0 refs ds s0, init_state sg fs0 refs ds = POk s0 ->
@@ -246,6 +248,7 @@ Proof.
   - destruct (mk_data _ _ _); [|discriminate]. inversion H; subst. exists []. cbn. symmetry; apply app_nil_r.
   - destruct (init_state _ _ _ _); [|discriminate]. inversion H; subst. exists []. cbn. symmetry; apply app_nil_r.
   - inversion H; subst. eexists. cbn. reflexivity.
+  - discriminate H.
 Qed.
 Lemma prep_bound_stable : forall pc sg s0 ops more s s', run pc sg s0 ops = POk s -> run pc sg s0 (ops ++ more) = POk s' ->
   exists l, bound s' = bound s ++ l.
@@ -279,6 +282,7 @@ Proof.
   - rewrite <- Hi, <- Hif, <- Hir. destruct (init_state sg (init_fs a) (init_ref a) (init a)) as [s'|e]; [|discriminate].
     inversion H; subst a'; clear H. eexists. split; [reflexivity|]. unfold same_but_T. cbn. repeat split; try reflexivity. exact Hb.
   - inversion H; subst a'; clear H. eexists. split; [reflexivity|]. unfold same_but_T. cbn. rewrite Hb, Hd, Hf. repeat split; assumption.
+  - discriminate H.
 Qed.
 
 Lemma present_same_but_T : forall sg s0 ops s, run true sg s0 ops = POk s ->
@@ -301,6 +305,31 @@ Proof.
   split; [vm_compute; reflexivity|].
   split; [vm_compute; reflexivity|].
   intro H. apply (f_equal (map (fun x : Qc => Qnum (this x)))) in H. vm_compute in H. discriminate H.
+Qed.
+
+(* ---------------------------------------------------------------- calls that raise ---------------------------- *)
+Lemma run_cons : forall pc sg s o r, run pc sg s (o :: r) = bindp (step pc sg s o) (fun s' => run pc sg s' r).
+Proof.
+  intros. unfold run. cbn [fold_left bindp]. destruct (step pc sg s o) as [s'|e]; cbn [bindp]; [reflexivity|].
+  induction r as [|o' r IH]; cbn [fold_left bindp]; [reflexivity|exact IH].
+Qed.
+(* a call that raises changes nothing; the state reached by a history with failing calls is the state reached by the
+   history of its successful calls alone (so every theorem about [run] applies to it) *)
+Lemma failed_call_noop : forall pc sg s o e, step pc sg s o = PErr e -> step_keep pc sg s o = (Some e, s).
+Proof. intros pc sg s o e H. unfold step_keep. rewrite H. reflexivity. Qed.
+Lemma run_keep_succ : forall pc sg ops s, run pc sg s (succ_ops pc sg s ops) = POk (run_keep pc sg s ops).
+Proof.
+  intros pc sg. induction ops as [|o r IH]; intro s; cbn [succ_ops run_keep]; [reflexivity|].
+  unfold step_keep. destruct (step pc sg s o) as [s'|e] eqn:E; cbn [snd].
+  - rewrite run_cons, E. cbn [bindp]. apply IH.
+  - apply IH.
+Qed.
+Lemma scipy_raises_noop : forall pc sg s, step_keep pc sg s ScipyRaises = (Some ValueErr, s).
+Proof. reflexivity. Qed.
+Lemma succ_ops_ok : forall pc sg ops s, Forall (fun o => o <> ScipyRaises) (succ_ops pc sg s ops).
+Proof.
+  intros pc sg. induction ops as [|o r IH]; intro s; cbn [succ_ops]; [constructor|].
+  destruct (step pc sg s o) as [s'|e] eqn:E; [|apply IH]. constructor; [|apply IH]. intro Ho. subst o. discriminate E.
 Qed.
 
 (* ---------------------------------------------------------------- soundness of the comparison used by the printers *)
